@@ -1,7 +1,7 @@
 """Property -> rule groups. Each entry runs the rule instances that decide a clause of that
 property on the current tree; the explanation and the undecided clauses go to the evidence."""
 from .rules import (form, split, shape, flag, valid, verify, cand, once, order, dt, missempty, effect, sides, wire,
-                    mask, conv, prof)
+                    mask, conv, prof, suffix)
 
 def _g(ctx, fn, *a, **k):
     """run one rule group; a group that can no longer recognise the source is recorded (exit 2) without
@@ -56,6 +56,7 @@ def c04(ctx):
     _g(ctx, order.run)
     _g(ctx, mask.run, candset=True)
     _g(ctx, once.run, extrema=True, pairpos=True, appends=True)
+    _g(ctx, suffix.run)
 
 
 def c05(ctx):
@@ -202,8 +203,9 @@ UNDECIDED = {
             'py_stringmatching tokenizers and measures', 'Cython path (not built, not parsed)'],
     'C02': ['the value the py_stringmatching measure returns', 'Cython path'],
     'C03': ['count-filter bound over q-gram bags', 'Levenshtein implementation', 'Cython path'],
-    'C04': ['prefix-filter lemma', "suffix filter's recursive Hamming estimate (_est_hamming_dist_lower_bound, "
-            "_partition, _binary_search) is algorithmic, not structural: undecided", 'Cython path'],
+    'C04': ['prefix-filter lemma', "suffix filter: only the budget and window necessary conditions (R-SUFFIX) are decided; "
+            "that the recursive estimate (_est_hamming_dist_lower_bound, _binary_search) is a valid lower bound of the "
+            "suffixes' Hamming distance is algorithmic: undecided", 'Cython path'],
     'C05': ['pandas itertuples/zip semantics (trusted)', 'what sim_function returns'],
     'C06': ['that counting postings equals set overlap for bag tokenizers (excluded by the property)'],
     'C08': ['pandas isnull/dropna semantics (trusted)'],
